@@ -38,6 +38,11 @@ macro_rules! st { ($name:ident { $($(#[$m:meta])* $f:ident : $t:ty),* }) => {
 #[derive(Deserialize, Serialize)] enum E { A, B, Cc }
 impl Build for E { fn build(j: &J) -> Self { match unhex(j["var"].as_str().unwrap()).as_slice() { b"A" => E::A, b"B" => E::B, _ => E::Cc } } }
 impl Canon for E { fn canon(&self) -> J { json!({"var": hex(match self { E::A => b"A", E::B => b"B", E::Cc => b"Cc" })}) } }
+// variant names that the writer has to escape (rename / rename_all): they must read back
+#[derive(Deserialize, Serialize)] enum E2 { #[serde(rename = "not-set")] NotSet, #[serde(rename = "a b")] Ab, #[serde(rename = "ü")] U, #[serde(rename = "snake_case")] Sn, Plain }
+const E2N: [(&str, fn() -> E2); 5] = [("not-set", || E2::NotSet), ("a b", || E2::Ab), ("ü", || E2::U), ("snake_case", || E2::Sn), ("Plain", || E2::Plain)];
+impl Build for E2 { fn build(j: &J) -> Self { let n = unhex(j["var"].as_str().unwrap()); E2N.iter().find(|(k, _)| k.as_bytes() == n.as_slice()).expect("harness: E2 variant").1() } }
+impl Canon for E2 { fn canon(&self) -> J { json!({"var": hex(match self { E2::NotSet => "not-set", E2::Ab => "a b", E2::U => "ü", E2::Sn => "snake_case", E2::Plain => "Plain" }.as_bytes())}) } }
 #[derive(Deserialize, Serialize)] struct N(u16);
 impl Build for N { fn build(j: &J) -> Self { N(u16::build(&j["nt"])) } }
 impl Canon for N { fn canon(&self) -> J { json!({"nt": self.0.canon()}) } }
@@ -53,6 +58,7 @@ st!(S6 { c: char, i: i8 });
 st!(S7 { u: (), n: N });
 st!(S8 { #[serde(default)] d: u32, x: String });
 st!(S9 { w: Vec<Option<u16>>, z: i64 });
+st!(S11 { m: E2, o: Option<E2>, v: Vec<E2> });
 st!(S10 { h: u64, g: i16, k: i32, l: Option<u64>, m: Vec<u64> });   // with S0-S9: every integer width the codec has a method for
 
 fn run<'de, T: Deserialize<'de> + Canon>(input: &'de [u8]) -> J {
@@ -78,13 +84,22 @@ fn ser2(v: &J) -> J {   // S2 borrows: decode into the borrowed form from the te
 }
 
 
-fn query_iter(q: &[u8]) -> J {
+fn query_iter(q: &[u8], prev: Option<&[u8]>, noq: bool) -> J {
     use crate::util::*;
-    let mut raw = b"GET /?".to_vec(); raw.extend_from_slice(q); raw.extend_from_slice(b" HTTP/1.1\r\n\r\n");
-    let mut conn = Script::new(vec![raw], true);
-    let stalled = conn.stalled.clone();
+    // no "?" at all when the query is absent (`noq`)
+    let mut raw = if noq { b"GET /".to_vec() } else { let mut r = b"GET /?".to_vec(); r.extend_from_slice(q); r }; raw.extend_from_slice(b" HTTP/1.1\r\nX-A: k=v&w=x\r\n\r\n");
     let mut req = ohkami::Request::__verif_init();
     let mut req = unsafe { std::pin::Pin::new_unchecked(&mut req) };
+    if let Some(p) = prev {
+        // the request object is reused on a keep-alive connection: an earlier request with another query was read into it, then `clear`
+        let mut first = b"GET /?".to_vec(); first.extend_from_slice(p); first.extend_from_slice(b" HTTP/1.1\r\n\r\n");
+        let mut conn = Script::new(vec![first], true);
+        let stalled = conn.stalled.clone();
+        let _ = block_on_or_stall(&stalled, req.as_mut().__verif_read(&mut conn));
+        unsafe { req.as_mut().get_unchecked_mut() }.__verif_clear();
+    }
+    let mut conn = Script::new(vec![raw], true);
+    let stalled = conn.stalled.clone();
     match block_on_or_stall(&stalled, req.as_mut().__verif_read(&mut conn)) {
         Some(Ok(Some(()))) => json!({"pairs": req.query.iter().map(|(k, v)| json!([hex(k.as_bytes()), hex(v.as_bytes())])).collect::<Vec<_>>()}),
         _ => json!({"outcome": "refused"}),
@@ -92,13 +107,13 @@ fn query_iter(q: &[u8]) -> J {
 }
 
 pub fn run_case(c: &J) -> J {
-    if let Some(q) = c.get("query").and_then(J::as_str) { return query_iter(&unhex(q)) }
+    if let Some(q) = c.get("query").and_then(J::as_str) { let prev = c.get("prev").and_then(J::as_str).map(unhex); return query_iter(&unhex(q), prev.as_deref(), c["noq"].as_bool() == Some(true)) }
     let tid = c["tid"].as_u64().unwrap();
     if !c["value"].is_null() {
         let v = c["value"].clone();
         return match tid {
             0 => ser::<S0>(&v), 1 => ser::<S1>(&v), 2 => ser2(&v), 3 => ser::<S3>(&v), 4 => ser::<S4>(&v),
-            5 => ser::<BTreeMap<String, String>>(&v), 6 => ser::<S6>(&v), 7 => ser::<S7>(&v), 8 => ser::<S8>(&v), 9 => ser::<S9>(&v), 10 => ser::<S10>(&v),
+            5 => ser::<BTreeMap<String, String>>(&v), 6 => ser::<S6>(&v), 7 => ser::<S7>(&v), 8 => ser::<S8>(&v), 9 => ser::<S9>(&v), 10 => ser::<S10>(&v), 11 => ser::<S11>(&v),
             _ => json!({"outcome": "bad-tid"}),
         }
     }
@@ -106,7 +121,7 @@ pub fn run_case(c: &J) -> J {
     match tid {
         0 => run::<S0>(&input), 1 => run::<S1>(&input), 2 => run::<S2>(&input), 3 => run::<S3>(&input),
         4 => run::<S4>(&input), 5 => run::<BTreeMap<String, String>>(&input), 6 => run::<S6>(&input),
-        7 => run::<S7>(&input), 8 => run::<S8>(&input), 9 => run::<S9>(&input), 10 => run::<S10>(&input),
+        7 => run::<S7>(&input), 8 => run::<S8>(&input), 9 => run::<S9>(&input), 10 => run::<S10>(&input), 11 => run::<S11>(&input),
         _ => json!({"outcome": "bad-tid"}),
     }
 }
